@@ -315,7 +315,11 @@ void normalize(const RUri &in, unsigned mask, Normal &out) {
     if ((mask & N_SCHEME) && u.scheme.present) u.scheme.text = to_lower(u.scheme.text);
     if ((mask & N_USER) && u.userinfo.present) u.userinfo.text = decode_unreserved(u.userinfo.text);
     if ((mask & N_HOST) && u.has_authority) {
-        if (u.hostkind == HK_REGNAME) u.host.text = lower_outside_triplets(decode_unreserved(u.host.text));
+        if (u.hostkind == HK_REGNAME) {
+            u.host.text = lower_outside_triplets(decode_unreserved(u.host.text));
+            // decoding can turn a registered name into the text of an IPv4 address ("1%2E2.3.4"); that text reads back as an IPv4 host
+            unsigned char b4[4]; if (parse_ipv4(u.host.text, b4)) { u.hostkind = HK_IP4; memset(u.ip, 0, 16); memcpy(u.ip, b4, 4); }
+        }
         else if (u.hostkind == HK_FUTURE) u.host.text = to_lower(u.host.text);
     }
     if ((mask & N_QUERY) && u.query.present) u.query.text = decode_unreserved(u.query.text);
